@@ -663,7 +663,7 @@ const (
 
 type counters struct {
 	evals, offRowsSQL, offStmtNoSQL int64
-	invalidUTF8                      int64
+	invalidUTF8                     int64
 }
 
 // RunSynthetic is the synthetic half of C20.
